@@ -71,7 +71,8 @@ def step (g : Graph) (op : Op) : Graph :=
 
 def run (g : Graph) (ops : List Op) : Graph := ops.foldl step g
 
-def init : Graph := {}
+/-- a freshly created file: `File.__init__` creates the two root groups, `data` then `metadata` -/
+def init : Graph := ((({} : Graph).ensureGroup 0 "data").1.ensureGroup 0 "metadata").1
 
 def Reachable (g : Graph) : Prop := ∃ ops : List Op, g = run init ops
 
